@@ -542,10 +542,27 @@ func suiteStream(o *Out, r *Rng, n int, tier string) {
 					o.Stat("stream.start.cursor_lib_below_hub_window", 1)
 				}
 			}
+			forceFrom := false
+			if r.Intn(2) == 0 { // both at once: a forked-out block inside the hub window whose cursor LIB is older than the window
+				// (the hub cannot serve the cursor: the fork is resolved from the files and the forked-blocks store, and the
+				// undos are replayed at heights the hub could already serve by number)
+				var fw []curRec
+				for _, e := range cand {
+					if !onChain[strings.Split(e.blk, ":")[0]] && e.step != "irr" &&
+						parseRefTok(e.lib).Num() < lowest0 && parseRefTok(e.blk).Num() >= lowest0 {
+						fw = append(fw, e)
+					}
+				}
+				if len(fw) > 0 {
+					cr = fw[r.Intn(len(fw))]
+					forceFrom = r.Intn(4) != 0
+					o.Stat("stream.start.forked_cursor_in_window_with_lib_below_it", 1)
+				}
+			}
 			c.cur = &cr
 			c.mode = "from"
 			o.Stat("stream.start.cursor_"+cr.step, 1)
-			if r.Intn(2) == 0 {
+			if r.Intn(2) == 0 && !forceFrom {
 				c.mode = "through"
 				if r.Intn(4) != 0 { // prefer target cursors whose block the hub no longer retains (the files have to carry the stream past it)
 					var bc []curRec
